@@ -103,6 +103,24 @@ func newCreateTable(ct sql.CreateTableStmt) (*Schema, error) {
 			Collate: c.Collate,
 			Rowid:   false,
 		}
+		// SQLite makes the indexes of a column's constraints in the order they
+		// are written. That matters when UNIQUE and PRIMARY KEY share an
+		// index: it gets the sort order of the first.
+		if c.Unique && c.UniqueFirst {
+			if st.addIndex(
+				false,
+				fmt.Sprintf("sqlite_autoindex_%s_%d", st.Table, autoindex),
+				[]IndexColumn{
+					{
+						Column:    c.Name,
+						Collate:   c.Collate,
+						SortOrder: sql.Asc,
+					},
+				},
+			) {
+				autoindex++
+			}
+		}
 		if c.PrimaryKey {
 			col.Rowid = (!ct.WithoutRowid) && isRowid(false, c.Type, c.PrimaryKeyDir)
 			col.Null = !ct.WithoutRowid && c.Null // w/o rowid forces not null
@@ -113,14 +131,15 @@ func newCreateTable(ct sql.CreateTableStmt) (*Schema, error) {
 			}
 			if ct.WithoutRowid {
 				// non-rowid primary keys have a special place
-				st.setPK([]IndexColumn{
+				if !st.setPK([]IndexColumn{
 					{
 						Column:    c.Name,
 						Collate:   c.Collate,
 						SortOrder: c.PrimaryKeyDir,
 					},
-				})
-				autoindex++
+				}) {
+					autoindex++
+				}
 			} else {
 				if col.Rowid {
 					st.RowidPK = true
@@ -139,7 +158,7 @@ func newCreateTable(ct sql.CreateTableStmt) (*Schema, error) {
 				}
 			}
 		}
-		if c.Unique {
+		if c.Unique && !c.UniqueFirst {
 			if st.addIndex(
 				false,
 				fmt.Sprintf("sqlite_autoindex_%s_%d", st.Table, autoindex),
